@@ -98,20 +98,18 @@ Section Raw.
       + destruct X as (q & ps' & X1 & X2 & X3). eapply C; eassumption.
   Qed.
 
-  Theorem raw_exact : forall f tiers profiles p,
+  Theorem raw_tail_exact : forall f tiers profiles p,
     tiers_in_cs c e cs v tiers -> failsafe_ok e cs ec (S (S f)) ->
     wfp v p -> entry_mark_ok c p = true ->
-    ok_result ec c (expected ec (e_sets e) tiers profiles p) p
-      (run (S (S (S f))) cs e (endpoint_rules ec c tiers profiles) p) = true.
+    ok_result ec c (expected_tail ec c e tiers profiles p) p
+      (go cs e (run (S (S f)) cs e) (endpoint_tail ec c tiers profiles) p) = true.
   Proof.
     intros f tiers profiles p Hti Hfs Hw Hd.
     assert (Hn : is_normal ec = false) by (destruct (is_normal ec); [discriminate Hnd|reflexivity]).
     assert (Hfw : is_forward ec = false) by (rewrite Hn in Hnd; exact Hnd).
     assert (Ht : ec_type ec = TUntracked \/ ec_type ec = TPreDNAT).
     { unfold is_normal in Hn. unfold is_forward in Hfw. destruct (ec_type ec); try discriminate; auto. }
-    unfold endpoint_rules, expected. cbn [run].
-    destruct (ec_admin_up ec); cbn [negb].
-    2:{ rewrite go_deny by reflexivity. cbn [ok_result]. rewrite deny_final_fin, packet_eqb_unmarked_of_unmark; reflexivity. }
+    unfold endpoint_tail, expected_tail, expected_verdict.
     (* conntrack rules: only in the mangle chain *)
     assert (CT : forall rs,
       (if negb (is_untracked ec) && ct_in p [CtRelated; CtEstablished] then False
@@ -134,8 +132,9 @@ Section Raw.
       rewrite conntrack_run by exact Eu. rewrite E1, E2, E3. cbn [andb ok_result].
       rewrite deny_final_fin, packet_eqb_unmarked_of_unmark; reflexivity. }
     rewrite CT by exact I.
+    rewrite qos_conn_run, Hn. cbn [andb].
     rewrite (failsafe_run e cs ec f _ p Hfs).
-    rewrite Hn, Hfw, andb_false_r. cbn [app].
+    rewrite ?Hn, ?Hfw, ?andb_false_r. cbn [app].
     unfold AClearMark, ASetMaskedMark. rewrite go_mark by reflexivity.
     set (p1 := set_mark p (apply_mark (lnot32 (N.lor (c_accept c) (c_pass c))) 0 (pk_mark p))).
     assert (U1 : unmark p1 = unmark p) by reflexivity.
